@@ -336,6 +336,9 @@ func (s *Stage) Receive(file *sts.Partial, reader io.Reader) (err error) {
 	done := isCompanionComplete(cmp)
 	if done {
 		final := s.partialToFinal(file)
+		// The record of an earlier delivery may have aged out of the cache and be
+		// known only from the log (same look-back as partReceived)
+		s.buildCache(s.cacheLookBack(file.Time.Time))
 		existing := s.fromCache(final.path)
 		if existing != nil &&
 			existing.state != stateFailed &&
@@ -371,6 +374,19 @@ func (s *Stage) Received(parts []sts.Binned) (n int) {
 		n++
 	}
 	return
+}
+
+// cacheLookBack returns how far back the log has to be read to know whether a
+// file with the given time was received before: not past now and at most 30 days
+func (s *Stage) cacheLookBack(when time.Time) time.Time {
+	now := time.Now()
+	if when.After(now) {
+		return now
+	}
+	if monthAgo := now.Add(-1 * time.Hour * 24 * 30); when.Before(monthAgo) {
+		return monthAgo
+	}
+	return when
 }
 
 func (s *Stage) partReceived(part sts.Binned) bool {
